@@ -16,7 +16,8 @@ CONSTANTS Paths,      \* subset of {"a", "b", "d", "d/x"}
           Rounds,     \* number of backups per history
           MaxEdits,   \* edits before a backup: 0..MaxEdits
           Twin,       \* TRUE: parent based backups are taken even when the premise is violated (negative twin)
-          Emit        \* TRUE: print the history when it is complete
+          Emit,       \* TRUE: print the history when it is complete
+          Modes       \* subset of {"inc", "incskip", "force", "forceskip"}
 
 VARIABLES src, clock, flags, group, round, todo, hist, ok
 
@@ -32,7 +33,6 @@ Up(p) == IF p = "d/x" THEN "d" ELSE ""
 CanExist(s, p) == Up(p) = "" \/ (Up(p) \in Paths /\ s[Up(p)].kind = "dir")
 Below(p) == {q \in Paths : Up(q) = p}
 
-Modes == {"inc", "incskip", "force", "forceskip"}
 UsesParent(m) == m \in {"inc", "incskip"}
 Skips(m) == m \in {"incskip", "forceskip"}
 
@@ -112,9 +112,9 @@ Backup ==
 
 Finish ==
   /\ todo = 0 /\ round = Rounds
-  /\ todo' = 99
+  /\ round' = Rounds + 1
   /\ Emit => PrintT(<<"HIST", ToJson([flags |-> flags, paths |-> SetToSeq(Paths), ops |-> hist])>>)
-  /\ UNCHANGED <<src, clock, flags, group, round, hist, ok>>
+  /\ UNCHANGED <<src, clock, flags, group, todo, hist, ok>>
 
 Next == ChooseEdits \/ Edit \/ Backup \/ Finish
 Spec == Init /\ [][Next]_vars
